@@ -268,6 +268,7 @@ type unparser struct {
 }
 
 func (u *unparser) p(text string) { u.toks = append(u.toks, RTok{Text: text, Value: text}) }
+
 // blockLines: s can be written as a block string with the delimiters on lines
 // of their own (quotes, backslashes and line feeds stay raw): no CR or control
 // character, first line not indented and not blank, last line not blank.
